@@ -18,6 +18,7 @@ type RouteItem struct {
 	GapMs       int    `json:"gapMs"`
 	Len         int    `json:"len"` // payload length (mux)
 	ID          uint32 `json:"id"`  // broker id; ids are per accepting side, so the same number is used in both directions
+	SlowMs      int    `json:"slowMs"` // (grpc kinds) the server factory passed to AcceptAndServe takes this long
 	Redial      bool   `json:"redial"` // (grpcmux) no new accept: dial the still-open listener of (accepting side, id) again
 }
 
